@@ -51,7 +51,7 @@ LEVEL = {
             'note': _TB + 'C07_xff_valid_iff_number_in_unit_interval depends on the standard library axioms ClassicalDedekindReals.sig_not_dec, sig_forall_dec, FunctionalExtensionality.functional_extensionality_dep, Classical_Prop.classic (real numbers); every other theorem is closed under the global context. strconv.ParseFloat is Go\'s own and its result is an input of the model.'},
     'C19': {'text': 'Theorem: parse(print t) = t for all 2^32 timestamps (calendar by a vm_compute sweep over all 49 711 days lifted to a universal statement). '
                     'parse(print d) = d for all 2^31 non-negative durations; an accepted duration string is a numeral plus one unit letter and means numeral * unit <= 2^31-1; '
-                    'every valid archive list and every method name round-trips. The executable model of printers and parsers is also compared with the code on boundary numerals, '
+                    'every valid archive list and every method name round-trips; the -agg-method flag accepts exactly the six storable methods under the names they are printed with. The executable model of printers and parsers is also compared with the code on boundary numerals, '
                     'malformed classes and exhaustive short strings.',
             'design_ref': '5 C19',
             'note': _TB + 'time.Parse/Format are modelled for the one fixed layout, including the liberal forms time.Parse accepts (one-digit hour, fractional seconds).'},
